@@ -422,23 +422,33 @@ impl C14 {
             }
         }
         check_all_free(&world).map_err(|f| Fail::new(format!("{} {}", f.msg, where_)))?;
-        // next dispatch: as if nothing had happened
-        b.ctx.reset_counters();
-        let out2 = run_call(b, &world, entry, None, Duration::from_millis(3000));
-        if let Some(p) = &out2.panic {
-            return Err(Fail::new(format!(
-                "the dispatch after a caught panic panicked: {} {}",
-                describe_panic(p),
-                where_
-            )));
+        // the next dispatches: as if nothing had happened (two of them: state that is only repaired by
+        // the first one must not stay broken either)
+        for round in 0..2 {
+            b.ctx.reset_counters();
+            let out2 = run_call(b, &world, entry, None, Duration::from_millis(3000));
+            if let Some(p) = &out2.panic {
+                return Err(Fail::new(format!(
+                    "dispatch {} after a caught panic panicked: {} {}",
+                    round + 1,
+                    describe_panic(p),
+                    where_
+                )));
+            }
+            let exp2 = expected_runs(
+                &flat,
+                if entry.runs_ordinary() { 1 } else { 0 },
+                if entry.runs_tl() { 1 } else { 0 },
+            );
+            check_counts(&flat, &b.ctx.runs(), &exp2).map_err(|f| {
+                Fail::new(format!(
+                    "dispatch {} after a caught panic: {} {}",
+                    round + 1,
+                    f.msg,
+                    where_
+                ))
+            })?;
         }
-        let exp2 = expected_runs(
-            &flat,
-            if entry.runs_ordinary() { 1 } else { 0 },
-            if entry.runs_tl() { 1 } else { 0 },
-        );
-        check_counts(&flat, &b.ctx.runs(), &exp2)
-            .map_err(|f| Fail::new(format!("after a caught panic: {} {}", f.msg, where_)))?;
         check_all_free(&world)?;
         Ok(())
     }
